@@ -269,6 +269,20 @@ func (c *Check) add(rule, key, pos, desc, status, how string) *Obligation {
 	return o
 }
 
+// rollback drops the obligations filed after index n (a rule that tries another anchor).
+func (c *Check) rollback(n int) {
+	for _, o := range c.Obls[n:] {
+		k := o.Key
+		if i := strings.LastIndex(k, "#"); i > 0 {
+			k = k[:i]
+		}
+		if c.keyCount[o.Rule+"|"+k] > 0 {
+			c.keyCount[o.Rule+"|"+k]--
+		}
+	}
+	c.Obls = c.Obls[:n]
+}
+
 func (c *Check) ok(rule, key, pos, desc, how string) *Obligation {
 	return c.add(rule, key, pos, desc, "discharged", how)
 }
